@@ -243,6 +243,20 @@ impl_into!(vec512_storage, [u32; 16], u32x16);
 impl_into!(vec512_storage, [u64; 8], u64x8);
 impl_into!(vec512_storage, [u128; 4], u128x4);
 
+#[cfg(cryptocorrosion_verif)]
+static VERIF_CPU_FEATURES: core::sync::atomic::AtomicU32 = core::sync::atomic::AtomicU32::new(0);
+/// Verification hook: simulated CPU feature set for the run-time dispatchers
+/// (bit 0 sse2, 1 ssse3, 2 sse4.1, 3 avx, 4 avx2; 0 = use real detection).
+#[cfg(cryptocorrosion_verif)]
+#[inline]
+pub fn verif_cpu_features() -> u32 {
+    VERIF_CPU_FEATURES.load(core::sync::atomic::Ordering::Relaxed)
+}
+#[cfg(cryptocorrosion_verif)]
+pub fn verif_set_cpu_features(mask: u32) {
+    VERIF_CPU_FEATURES.store(mask, core::sync::atomic::Ordering::Relaxed)
+}
+
 /// Generate the full set of optimized implementations to take advantage of the most important
 /// hardware feature sets.
 ///
@@ -251,6 +265,7 @@ impl_into!(vec512_storage, [u128; 4], u128x4);
 macro_rules! dispatch {
     ($mach:ident, $MTy:ident, { $([$pub:tt$(($krate:tt))*])* fn $name:ident($($arg:ident: $argty:ty),* $(,)*) -> $ret:ty $body:block }) => {
         #[cfg(feature = "std")]
+        #[allow(unexpected_cfgs)]
         $($pub$(($krate))*)* fn $name($($arg: $argty),*) -> $ret {
             #[inline(always)]
             fn fn_impl<$MTy: $crate::Machine>($mach: $MTy, $($arg: $argty),*) -> $ret $body
@@ -283,6 +298,24 @@ macro_rules! dispatch {
                 fn_impl($crate::x86_64::SSE2::instance(), $($arg),*)
             }
             unsafe {
+                #[cfg(cryptocorrosion_verif)]
+                {
+                    // verification hook: replay a given CPU feature level on a more capable host
+                    let f = $crate::x86_64::verif_cpu_features();
+                    if f != 0 {
+                        return if f & 16 != 0 {
+                            impl_avx2($($arg),*)
+                        } else if f & 8 != 0 {
+                            impl_avx($($arg),*)
+                        } else if f & 4 != 0 {
+                            impl_sse41($($arg),*)
+                        } else if f & 2 != 0 {
+                            impl_ssse3($($arg),*)
+                        } else {
+                            impl_sse2($($arg),*)
+                        };
+                    }
+                }
                 if is_x86_feature_detected!("avx2") {
                     impl_avx2($($arg),*)
                 } else if is_x86_feature_detected!("avx") {
@@ -334,6 +367,7 @@ macro_rules! dispatch {
 macro_rules! dispatch_light128 {
     ($mach:ident, $MTy:ident, { $([$pub:tt$(($krate:tt))*])* fn $name:ident($($arg:ident: $argty:ty),* $(,)*) -> $ret:ty $body:block }) => {
         #[cfg(feature = "std")]
+        #[allow(unexpected_cfgs)]
         $($pub $(($krate))*)* fn $name($($arg: $argty),*) -> $ret {
             #[inline(always)]
             fn fn_impl<$MTy: $crate::Machine>($mach: $MTy, $($arg: $argty),*) -> $ret $body
@@ -347,6 +381,18 @@ macro_rules! dispatch_light128 {
                 fn_impl($crate::x86_64::SSE2::instance(), $($arg),*)
             }
             unsafe {
+                #[cfg(cryptocorrosion_verif)]
+                {
+                    // verification hook: replay a given CPU feature level on a more capable host
+                    let f = $crate::x86_64::verif_cpu_features();
+                    if f != 0 {
+                        return if f & 8 != 0 {
+                            impl_avx($($arg),*)
+                        } else {
+                            impl_sse2($($arg),*)
+                        };
+                    }
+                }
                 if is_x86_feature_detected!("avx") {
                     impl_avx($($arg),*)
                 } else if is_x86_feature_detected!("sse2") {
@@ -392,6 +438,7 @@ macro_rules! dispatch_light128 {
 macro_rules! dispatch_light256 {
     ($mach:ident, $MTy:ident, { $([$pub:tt$(($krate:tt))*])* fn $name:ident($($arg:ident: $argty:ty),* $(,)*) -> $ret:ty $body:block }) => {
         #[cfg(feature = "std")]
+        #[allow(unexpected_cfgs)]
         $([$pub $(($krate))*])* fn $name($($arg: $argty),*) -> $ret {
             #[inline(always)]
             fn fn_impl<$MTy: $crate::Machine>($mach: $MTy, $($arg: $argty),*) -> $ret $body
@@ -405,6 +452,18 @@ macro_rules! dispatch_light256 {
                 fn_impl($crate::x86_64::SSE2::instance(), $($arg),*)
             }
             unsafe {
+                #[cfg(cryptocorrosion_verif)]
+                {
+                    // verification hook: replay a given CPU feature level on a more capable host
+                    let f = $crate::x86_64::verif_cpu_features();
+                    if f != 0 {
+                        return if f & 8 != 0 {
+                            impl_avx($($arg),*)
+                        } else {
+                            impl_sse2($($arg),*)
+                        };
+                    }
+                }
                 if is_x86_feature_detected!("avx") {
                     impl_avx($($arg),*)
                 } else if is_x86_feature_detected!("sse2") {
